@@ -514,8 +514,11 @@ func c12One(c c12Case, rng *Rng) string {
 				want++
 			}
 		}
-		waitUntil(10*time.Second, func() bool { return cp.GetNumConnToCollector() == want })
-		conns = fmt.Sprint(cp.GetNumConnToCollector())
+		// the value that ended the wait is the observation (a second read could see a
+		// connection of a client that left before the collector got round to accepting it)
+		var last int64
+		waitUntil(10*time.Second, func() bool { last = cp.GetNumConnToCollector(); return last == want })
+		conns = fmt.Sprint(last)
 	} else {
 		// Stop in the middle of the traffic: after a random share of the deliveries
 		k := 0
